@@ -9,3 +9,30 @@ mod utils;
 pub mod instructions;
 
 pub type Result<T> = core::result::Result<T, errors::UnifiedError>;
+
+/// Re-exports of crate-private items for the verification harness (observation only).
+#[cfg(orca_so_whirlpools_verif)]
+#[doc(hidden)]
+pub mod verif_export {
+    pub mod constants {
+        pub use super::super::constants::*;
+    }
+    pub mod cpi {
+        pub use super::super::cpi::*;
+    }
+    pub mod errors {
+        pub use super::super::errors::*;
+    }
+    pub mod events {
+        pub use super::super::events::*;
+    }
+    pub mod ported {
+        pub use super::super::ported::*;
+    }
+    pub mod state {
+        pub use super::super::state::*;
+    }
+    pub mod utils {
+        pub use super::super::utils::*;
+    }
+}
